@@ -24,7 +24,7 @@ def ev(expr):
 
 
 ATOMS = ["int", "str", "NoneType", "A", "B", "C", "D", "M"]
-MORE_ATOMS = ["bool", "float", "bytes", "TimeoutError", "Warning", "X1", "X2", "X3", "X4", "X5", "X6", "E1", "E2", "E3", "E4", "E5", "E6", "R1", "Outer.Inner"]
+MORE_ATOMS = ["bool", "float", "bytes", "TimeoutError", "Warning", "Registry", "SKey", "X1", "X2", "X3", "X4", "X5", "X6", "E1", "E2", "E3", "E4", "E5", "E6", "R1", "Outer.Inner"]
 SPECIAL_LEAVES = ["Tuple[()]", "Callable", "List[Any]", "Set[Any]", "Dict[Any, Any]", "Iterator[Any]", "Type[A]", "Type[int]",
                   "DefaultDict[Any, Any]"]
 HASHABLE_LEAVES = ATOMS + ["Tuple[()]", "Callable", "Type[A]", "Type[int]"]
